@@ -419,6 +419,15 @@ impl<'a> Binder<'a> {
             (1..table_schema.num_columns()).collect()
         };
 
+        // A column may be named once only in the list
+        if let Some(cols) = &stmt.columns {
+            for (i, idx) in column_indices.iter().enumerate() {
+                if column_indices[..i].contains(idx) {
+                    return Err(BinderError::Other(format!("column '{}' specified more than once", cols[i])));
+                }
+            }
+        }
+
         // Bind values
         let source = match &stmt.values {
             Values::Values(rows) => {
